@@ -94,11 +94,13 @@ NewChan(kind, key, s) == NewChanD(kind, key, s, FALSE)
 \* transaction x (on the linear history) changed key k: channels that were
 \* handed out by a tree (or by an earlier, committed transaction) and are
 \* relevant to k must be closed by x's Notify.  Root channels handed out by x
-\* itself are the base tree's root channel and are doomed as well.
+\* itself are the base tree's root channel and are doomed as well, and so are
+\* the channels of InsertWatch/ModifyWatch of x when x changes the key again
+\* ("close when that key is next changed").
 DoomFor(x, k) ==
     [ c \in DOMAIN chan |->
         IF chan[c].live /\ chan[c].oblig /\ ~chan[c].must /\ Relevant(chan[c], k)
-           /\ (chan[c].org # x \/ chan[c].kind = "root")
+           /\ (chan[c].org # x \/ chan[c].kind \in {"root", "ins"})
         THEN [chan[c] EXCEPT !.doom = x] ELSE chan[c] ]
 
 \* Notify of dirty transaction x: doomed channels must now be closed; every
